@@ -620,6 +620,17 @@ def _walks(prog, chk, R):
         g = prog.cfg(f)
         pushes = [c for c in g.calls(lambda e: e['k'] == 'mcall' and SX.short(e.get('callee', '')) in ('push_back', 'emplace_back'))]
         if not pushes:
+            # single-pass selection: no candidate list — the point where a candidate's conversion cost is consumed (handed to a
+            # best-cost tracker or compared with the best so far) plays the role of the collection point
+            costs = {v['id'] for v in SX.walk(f.body, into_lambdas=False) if v['k'] == 'var' and 'optional<int>' in (v.get('type') or '')}
+            uses = []
+            for c in g.nodes:
+                if c.kind in ('call', 'cond', 'assign') and SX.is_node(c.e) and c.id in set().union(*[g.reachable([h]) & g.reachable([h], forward=False) for h in g.loops()] or [set()]):
+                    if any(x.get('k') in ('opcall', 'un') and x.get('op') == '*' and any(y.get('k') == 'ref' and y.get('id') in costs for y in SX.walk(x)) for x in SX.walk(c.e)) or \
+                            any(x.get('k') == 'mcall' and SX.short(x.get('callee', '')) == 'value' and SX.strip(x.get('obj')).get('id') in costs for x in SX.walk(c.e)):
+                        uses.append(c)
+            pushes = uses[:1]
+        if not pushes:
             chk.ob('R08.4', f, f.ln, False, '%s collects the applicable overloads of every hierarchy level before choosing (no reachable candidate collection found)' % f.short,
                    key='walk:collects:' + f.short)
             continue
@@ -716,7 +727,47 @@ def _selection_sites(prog, chk, R):
             chk.ob('R08.4', f, c.ln or f.ln, bool(upd) and bool(eq) and tie is not None and used,
                    'selection takes the unique minimum: `<` updates the best cost and clears the tie flag, `==` sets it, and the flag decides the outcome afterwards '
                    '(update:%s equal-test:%s tie-flag:%s consulted:%s)' % (bool(upd), bool(eq), tie is not None, used), key='select:%s:%s' % (f.short, _nth(f, bv)))
-    chk.count('minimum-cost selection sites', nsites, 4)
+    # the same bookkeeping kept in a small record (`struct BestCostTracker { int bestCost = max; bool ambiguous; bool offer(int cost); }`)
+    for rname, rec in prog.facts.records.items():
+        if not rec.get('file', '').endswith(('runtime_evaluator.cpp', 'semantic_analyser.cpp', 'runtime_evaluator.hpp', 'semantic_analyser.hpp')):
+            continue
+        bests_f = [x['name'] for x in rec.get('fields', []) if x['type'] == 'int' and SX.is_node(x.get('init')) and 'max' in SX.show(x['init']) and 'numeric_limits' in str(x['init'])]
+        bools_f = [x['name'] for x in rec.get('fields', []) if x['type'] == 'bool']
+        for bname in bests_f:
+            for m in [m_ for m_ in prog.methods_of(rname) if m_.body and m_.kind == 'method']:
+                g = prog.cfg(m)
+                lt = [c for c in g.nodes if c.kind == 'cond' and (lambda cp: cp and cp[0] == '<' and SX.is_this_member(SX.strip(cp[2]), bname))(SX.cmp_parts(c.e) if SX.is_node(c.e) else None)]
+                if len(lt) != 1:
+                    continue
+                nsites += 1
+                c = lt[0]
+                cost = SX.show(SX.cmp_parts(c.e)[1])
+                tplus, tminus = _edges_of(g, c, True)[0], _edges_of(g, c, False)[0]
+                plus_nodes = _region(g, tplus)
+                upd = [n for n, l, r, op in g.writes() if n.id in plus_nodes and SX.is_this_member(SX.strip(l), bname) and SX.show(r) == cost]
+                eq = [e for e in g.nodes if e.kind == 'cond' and (lambda cp: cp and cp[0] == '==' and SX.show(cp[1]) == cost and SX.is_this_member(SX.strip(cp[2]), bname))(
+                    SX.cmp_parts(e.e) if SX.is_node(e.e) else None) and g.dominates(tminus, e)]
+                tie = None
+                for t_ in bools_f:
+                    ws = [(n, SX.strip(r)) for n, l, r, op in g.writes() if SX.is_this_member(SX.strip(l), t_) and SX.is_node(SX.strip(r)) and SX.strip(r).get('k') == 'bool']
+                    sets_true = [n for n, r in ws if r['v'] and eq and n.id in _region(g, _edges_of(g, eq[0], True)[0])]
+                    clears = [n for n, r in ws if not r['v'] and n.id in plus_nodes]
+                    if sets_true and clears:
+                        tie = t_
+                used = False
+                if tie is not None:
+                    q = rname + '::' + tie
+                    for f2 in fns:
+                        if f2 is m:
+                            continue
+                        g2 = prog.cfg(f2)
+                        if any(d.kind in ('cond', 'return') and isinstance(d.e, dict) and _mentions(d.e, lambda x: x.get('k') == 'member' and x.get('q') == q) for d in g2.nodes):
+                            used = True
+                            break
+                chk.ob('R08.4', m, c.ln or m.ln, bool(upd) and bool(eq) and tie is not None and used,
+                       'selection takes the unique minimum: `<` updates the best cost and clears the tie flag, `==` sets it, and the flag decides the outcome afterwards '
+                       '(update:%s equal-test:%s tie-flag:%s consulted:%s)' % (bool(upd), bool(eq), tie is not None, used), key='select:%s::%s' % (rname.split('::')[-1], m.short))
+    chk.count('minimum-cost selection sites', nsites, 2)
 
 
 def _nth(f, v):
